@@ -1,19 +1,24 @@
 (* C06 — Refinement structures of the dimension-wise strategy stay well formed under every refinement history.
    Property theorems only; each is closed by `exact` of a lemma from Proofs/.
 
-   Proved for ALL dimensions, start levels, margins, benefit assignments and histories WITHOUT rebalancing:
-   the state invariant DwInv (per dimension: Seg = tiling in ascending order + adjacent level agreement + end levels 0 +
-   binary refinement tree; coarsening = lmax_d - max(levels) >= 0; container cursors reset; C01 scheme invariant).
-   With rebalancing: rebalancing changes levels only (theorem); the level-free part of the invariant (tiling in ascending
-   order, coarsening = lmax_d - max(levels) >= 0, cursors reset) is proved for EVERY history with any option setting
-   (C06_reachable_tiling_any_options); the level conditions are decided per explored state by the verified checker tree_ok
-   (soundness theorem); the full statement
-     "rebalance dec t = Some t' -> TreeInv a b lmax t -> Seg a b 0 0 t'"  (for every outcome of the float decisions)
-   is NOT proved. *)
+   Proved for ALL dimensions, start levels, margins, benefit assignments, histories and ALL option settings (rebalancing on
+   or off, any safety factor, any outcome of the binary64 rebalancing test): the state invariant DwInv (per dimension:
+   Seg = tiling in ascending order + adjacent level agreement + end levels 0 + binary refinement tree;
+   coarsening = lmax_d - max(levels) >= 0; container cursors reset; C01 scheme invariant) holds after initialisation and is
+   preserved by every refinement step (C06_step_preserves_inv, C06_reachable_inv).  The rebalancing part:
+     rebalance dec t = Some t' -> Seg a b 0 0 t -> Seg a b 0 0 t'        (C06_rebalance_preserves_tree)
+   for both rotation branches, the recursion into the two halves, and every outcome of the float decisions
+   (Proofs/RebalanceSeg.v).  The same for runs that start from an installed valid state (C06_install_inv), which is what
+   the harness constructs directly.  The verified checker tree_ok (soundness theorem) is still evaluated on every explored
+   implementation state.  No definedness hypothesis remains: the asserts inside rebalance_interval are proved unreachable on
+   valid trees, the selection loop and the while loop of raise_lmax are proved to terminate within the model's fuel
+   (C06_rebalance_defined, C06_selection_is_margin_filter, C06_raise_lmax_terminates), so for EVERY history the run exists
+   and ends in a state satisfying the invariant (C06_every_history_wellformed). *)
 From Coq Require Import ZArith List Bool QArith Qcanon.
 From SG Require Import Base.QcUtil Model.CombiScheme Model.RefTree Model.DimWise
      Proofs.SchemeInv Proofs.RefTreeInv Proofs.RefSelect Proofs.RefRemoveSort Proofs.DimWiseInv Proofs.RefTreeCheck
-     Proofs.Rebalance Proofs.C06Main Proofs.DimWiseTile.
+     Proofs.Rebalance Proofs.C06Main Proofs.DimWiseTile Proofs.RebalanceSeg Proofs.DimWiseInvRebal Proofs.DimWiseInstallP Proofs.RaiseLoop Proofs.DimWiseTotal.
+From SG Require Import Model.DimWiseInstall.
 Import ListNotations.
 Open Scope Z_scope.
 
@@ -110,6 +115,93 @@ Proof. exact dw_reachable_tiling. Qed.
 Print Assumptions C06_reachable_tiling_any_options.
 
 (* ---------------------------------------------------------------------------------------------------------- *)
+(* rebalancing preserves the tree structure: any subtree handled by rebalance_interval(start, end, level) - the objects
+   start..end-1 form a subtree between points of levels u and w whose root has level `level` = max(u,w)+1 - is again such a
+   subtree afterwards, everything outside [start,end) is untouched; both rotation branches, every outcome of the float test *)
+Theorem C06_rebalance_interval_preserves_subtree : forall dec fuel s e level objs objs' pre seg post x y u w,
+  rebalance_interval fuel dec s e level objs = Some objs' ->
+  objs = pre ++ seg ++ post -> length pre = s -> (s + length seg)%nat = e ->
+  Seg x y u w seg -> level = Z.max u w + 1 ->
+  exists seg', objs' = pre ++ seg' ++ post /\ Seg x y u w seg' /\ length seg' = length seg.
+Proof. exact rebalance_interval_Seg. Qed.
+Print Assumptions C06_rebalance_interval_preserves_subtree.
+
+Theorem C06_rebalance_preserves_tree : forall dec a b t t',
+  rebalance dec t = Some t' -> Seg a b 0 0 t -> Seg a b 0 0 t'.
+Proof. exact rebalance_Seg. Qed.
+Print Assumptions C06_rebalance_preserves_tree.
+
+(* rebalancing is DEFINED on every valid tree: none of the asserts of rebalance_interval can fail (position_level found, at most
+   one level+1 point on either side of it, position_level < position_level_1_right, position_new_leaf found at the expected
+   position), and the model's fuel suffices *)
+Theorem C06_rebalance_defined : forall dec a b t,
+  Seg a b 0 0 t -> exists t', rebalance dec t = Some t' /\ Seg a b 0 0 t'.
+Proof. exact rebalance_defined. Qed.
+Print Assumptions C06_rebalance_defined.
+
+(* one refinement step with ANY options (rebalancing on or off, any safety factor / float outcome) preserves the invariant *)
+Theorem C06_step_preserves_inv : forall a b o bens st st',
+  DwInv a b st -> dw_step o bens st = Some st' -> DwInv a b st'.
+Proof. exact dw_step_preserves_inv_any. Qed.
+Print Assumptions C06_step_preserves_inv.
+
+(* hence after EVERY history with every option setting *)
+Theorem C06_reachable_inv : forall n lmin lmax a b o steps st0 st,
+  Forall2 (fun x y => (x < y)%Qc) a b ->
+  dw_init (S n) lmin lmax a b = Some st0 -> dw_run o steps st0 = Some st -> DwInv a b st.
+Proof. exact dw_reachable_inv_any. Qed.
+Print Assumptions C06_reachable_inv.
+
+(* installing arbitrary valid trees (refinement_postprocessing with or without the rebalancing pass, Model/DimWiseInstall.v)
+   gives a state satisfying the invariant, and so does every history from there: the states the harness constructs
+   directly are covered by the same theorems *)
+Theorem C06_install_inv : forall a b o rb trees st st',
+  length (st_lmax st) = st_dim st -> Inv (st_scheme st) ->
+  (forall d t, nth_error trees d = Some t -> Seg (nth d a 0%Qc) (nth d b 0%Qc) 0 0 t) ->
+  dw_install o rb trees st = Some st' -> DwInv a b st'.
+Proof. exact dw_install_inv. Qed.
+
+Theorem C06_installed_reachable_inv : forall n lmin lmax a b o rb trees steps st0 st1 st,
+  Forall2 (fun x y => (x < y)%Qc) a b ->
+  dw_init (S n) lmin lmax a b = Some st0 ->
+  (forall d t, nth_error trees d = Some t -> Seg (nth d a 0%Qc) (nth d b 0%Qc) 0 0 t) ->
+  dw_install o rb trees st0 = Some st1 -> dw_run o steps st1 = Some st -> DwInv a b st.
+Proof. exact dw_installed_reachable_inv. Qed.
+Print Assumptions C06_installed_reachable_inv.
+
+(* the step function is the container part followed by refinement_postprocessing (the function the installation uses) *)
+Theorem C06_step_is_select_then_postprocess : forall o bens st,
+  dw_step o bens st = match meta_refine_step (o_margin o) bens (st_meta st) with
+                      | Some m1 => dw_post o st m1
+                      | None => None
+                      end.
+Proof. exact dw_step_is_post. Qed.
+
+(* ---------------------------------------------------------------------------------------------------------- *)
+(* the run is DEFINED for every history: the while loop of raise_lmax terminates within the model's fuel (the smallest level
+   sum of a qualifying active index grows with every pass), the asserts of rebalance_interval cannot fail, the selection loop
+   terminates - so "dw_run = Some" is not a hypothesis but a theorem *)
+Theorem C06_raise_lmax_terminates : forall d v lmaxs lmin dim s,
+  Inv s -> s_dim s = dim -> s_lmin s = lmin -> 0 <= lmin -> 0 <= v -> Forall (fun x => 0 <= x) lmaxs ->
+  exists lmaxs' s', raise_lmax d v lmaxs lmin dim s = Some (lmaxs', s') /\ lmaxs' = bump d v lmaxs /\
+                    Forall (fun x => 0 <= x) lmaxs'.
+Proof. exact raise_lmax_defined. Qed.
+Print Assumptions C06_raise_lmax_terminates.
+
+Theorem C06_step_defined : forall a b o bens st,
+  DwInvT a b st -> exists st', dw_step o bens st = Some st' /\ DwInvT a b st'.
+Proof. exact dw_step_total. Qed.
+
+(* for every dimension >= 1, every start configuration accepted by initialize_refinement, every option setting (margin,
+   rebalancing, safety factor / float outcomes) and every sequence of benefit assignments: the run exists and its final
+   state satisfies the invariant (hence is well formed in the words of the property, C06_inv_wellformed) *)
+Theorem C06_every_history_wellformed : forall n lmin lmax a b o steps st0,
+  Forall2 (fun x y => (x < y)%Qc) a b -> dw_init (S n) lmin lmax a b = Some st0 ->
+  exists st, dw_run o steps st0 = Some st /\ DwInv a b st.
+Proof. exact dw_reachable_total. Qed.
+Print Assumptions C06_every_history_wellformed.
+
+(* ---------------------------------------------------------------------------------------------------------- *)
 (* non-vacuity *)
 Definition ex_opts (rebal : bool) : dw_opts :=
   mkOpts 6 rebal true (Q2Qc (9 # 10)) (rebalance_dec_exact (Q2Qc (1 # 10))) (v3_dec_exact 2).
@@ -157,4 +249,19 @@ Proof.
   split; [vm_compute; discriminate|]. split; [vm_compute; reflexivity|]. split; [vm_compute; reflexivity|].
   split; [vm_compute; reflexivity|].
   apply C06_tree_ok_sound. vm_compute. reflexivity.
+Qed.
+
+(* the same rebalanced state satisfies the full invariant by the THEOREM (no checker involved) *)
+Example C06_nonvacuous_rebalanced_inv :
+  exists st, ex_run true ex_a2 ex_b ex_steps2 = Some st /\ DwInv ex_a2 ex_b st /\
+    map i_l1 (nth 0 (st_trees st) []) = [3; 2; 1; 3; 2; 3; 0].
+Proof.
+  destruct (ex_run true ex_a2 ex_b ex_steps2) as [st|] eqn:E; [|vm_compute in E; discriminate].
+  exists st. split; [reflexivity|]. split.
+  - unfold ex_run in E. destruct (dw_init 2 1 2 ex_a2 ex_b) as [st0|] eqn:E0; [|discriminate].
+    eapply (C06_reachable_inv 1 1 2 ex_a2 ex_b (ex_opts true)); [| exact E0 | exact E].
+    repeat constructor.
+  - assert (H : option_map (fun st => map i_l1 (nth 0 (st_trees st) [])) (ex_run true ex_a2 ex_b ex_steps2)
+                = Some [3; 2; 1; 3; 2; 3; 0]) by (vm_compute; reflexivity).
+    rewrite E in H. simpl in H. injection H as H. exact H.
 Qed.
